@@ -425,10 +425,15 @@ func genBits(mode string, n int, seed int64) []bool {
 		for i := range b {
 			b[i] = rng.Float64() < th
 		}
-	case "dombyte": // one byte value dominates (70 % of the bytes are 0xA5): pattern counts far above 2^16 at 10^6 bits
+	case "dombyte": // one byte value dominates: its count lands just above 2^16 (where a 16-bit counter wraps to an
+		// inconspicuous value) when the input has more than 65536 bytes, else 70 % of the bytes
+		frac := 0.7
+		if nb := n / 8; nb > 70000 {
+			frac = (65536.0 + float64(nb)/256.0) / float64(nb)
+		}
 		for i := 0; i+8 <= n; i += 8 {
 			v := byte(rng.Intn(256))
-			if rng.Float64() < 0.7 {
+			if rng.Float64() < frac {
 				v = 0xA5
 			}
 			for k := 0; k < 8; k++ {
